@@ -885,7 +885,10 @@ def _stat_models():
             if isinstance(mode, (SOpt, SChoice)):
                 mode = interp.resolve(mode)
             if not isinstance(mode, SInt):
-                return getattr(_stat, name)(mode)
+                try:
+                    return getattr(_stat, name)(mode)
+                except Exception as e:      # e.g. OverflowError for a negative mode
+                    raise _pyraise(e)
             f = z3.Function('stat.' + name, z3.IntSort(), z3.BoolSort())
             for o in others:     # the file types are mutually exclusive
                 g = z3.Function('stat.' + o, z3.IntSort(), z3.BoolSort())
